@@ -248,7 +248,7 @@ Theorem implicit_noexcept : forall f k,
   normalise f k CNone = Some {| ev := None; ec := ChkNo |}.
 Proof.
   intros f k H Ho. unfold normalise. destruct f as [lg ex px cp]; cbn in *.
-  rewrite Ho. destruct H as [H|H]; subst; destruct ex; try reflexivity; destruct lg; reflexivity.
+  rewrite Ho. destruct lg, ex; cbn; try reflexivity. destruct H; discriminate.
 Qed.
 
 (* objects: every accepted declaration propagates through NULL *)
